@@ -23,7 +23,8 @@ M1_INV = ['ParserOK', 'FamilySound', 'RejectBeforeWrite', 'AcceptWritesAll', 'Ge
 
 def key_of(rec):
     return '-mp %s -numinst %s %s [%s]' % (rec['mp'], rec['numinst'],
-                                           ' '.join('%s=%s' % (o, rec['v'][o]) for o in sorted(rec['given'])), '/'.join(rec['pert']))
+                                           ' '.join('%s=%s%s' % (o, rec['v'][o], {1: '+hair', -1: '-hair'}.get((rec.get('eps') or {}).get(o, 0), ''))
+                                                    for o in sorted(rec['given'])), '/'.join(rec['pert']))
 
 
 def replay_args(tag, rec):
